@@ -110,6 +110,22 @@ CHECKS.update({
             "explicit-state BFS over attribute-access histories on the real objects + exhaustive sweep of operation classes"),
 })
 
+CHECKS.update({
+    "C05": ("DESIGN.md 5/C05",
+            "Three explorations: (1) every constructor form x logical array must build equal arrays, ~36 malformed constructions must be rejected; (2) a "
+            "wrapper around DimArray.__init__ (installed from the harness) validates every array - intermediates included - constructed while the ~175-entry "
+            "union alphabet runs; (3) BFS over programs of producers / cache-filling queries / in-place mutators on two registers: after every transition each "
+            "register must answer a 20-probe set exactly like a freshly constructed twin; states de-duplicated on snapshot + hidden cache signature.",
+            "trusts the fresh-twin builder and probe set in mc/props/c05.py; BFS depth 2 (quick) / 4 (thorough); comma-free names; nested grouping not covered",
+            "exhaustive sweep of constructor forms and operation alphabet under a constructor monitor + explicit-state BFS over operation histories with a differential fresh-twin oracle"),
+    "C15": ("DESIGN.md 5/C15",
+            "Every entry of the union alphabet is executed on four operand variants built to make mutation visible (unsorted axes, nested mutable metadata, "
+            "squeeze / transpose aliases sharing Axis objects, ';' in a name); snapshots of all operands and aliases are compared around the call; a strided "
+            "sample of every other property's argument classes is re-executed for the same purpose; copy() followed by each in-place mutator on either side.",
+            "trusts common.snap() (values bytes, dtype, dims, labels, axis metadata, metadata deep-frozen); result/operand aliasing not covered",
+            "exhaustive enumeration of (operand variant, operation, argument class) on the implementation with before/after snapshots; depth-2 copy-then-mutate exploration"),
+})
+
 PENDING = ["C01", "C03", "C05", "C06", "C07", "C08", "C09", "C10", "C11", "C12", "C13", "C14", "C15", "C16", "C17", "C18", "C19", "C20"]
 
 
